@@ -277,6 +277,29 @@ impl Check for C08 {
                 }
             }
         });
+        // the same device-space curves described in user units 1000x (and 1/300, 1/1000) the size under the
+        // inverse scale: anything that measures tolerances or subdivision in user space shows here
+        run.bound("conjugated scales", "9^3 quads and 9^4 cubics (control points x k under scale 1/k, k in {1000, 300, 0.001}), NonZero, fill and clip".to_string());
+        run.par(gs.len() * gs.len(), |s, l| {
+            let (a, b) = (gs[s / gs.len()], gs[s % gs.len()]);
+            for k in [1000.0f32, 300.0, 0.001] {
+                let xf: Xf = [1.0 / k, 0., 0., 1.0 / k, 0.3, -0.2];
+                let sc = |p: (f32, f32)| (p.0 * k, p.1 * k);
+                for c in &gs {
+                    let (pa, pb, pc) = (sc(a), sc(b), sc(*c));
+                    let path = PathSpec { evenodd: false, ops: vec![POp::M(pa.0, pa.1), POp::Q(pb.0, pb.1, pc.0, pc.1)] };
+                    account(run, 25_000 + s, l, &Case { w: 16, path, xf, clip: false }, false);
+                    for d in &gs {
+                        let pd = sc(*d);
+                        let path = PathSpec { evenodd: false, ops: vec![POp::M(pa.0, pa.1), POp::C(pb.0, pb.1, pc.0, pc.1, pd.0, pd.1)] };
+                        account(run, 25_000 + s, l, &Case { w: 16, path: path.clone(), xf, clip: false }, s == 10 && k == 1000.0 && c.0 == 6.1 && d.1 == 14.2);
+                        if !q || (s % 3 == 0) {
+                            account(run, 25_000 + s, l, &Case { w: 16, path, xf, clip: true }, false);
+                        }
+                    }
+                }
+            }
+        });
         // arcs
         let pi = std::f32::consts::PI;
         let sweeps: Vec<f32> = vec![pi / 3., -pi / 3., pi, -pi, 1.5 * pi, -1.5 * pi, 2. * pi, -2. * pi, 7., -7.];
